@@ -107,10 +107,12 @@ CommitStage(p) ==
   /\ LET n == nextIno  src == disk[h[p].file] IN
      /\ disk' = [disk EXCEPT ![n] = [frames |-> src.frames \cup src.pend, pend |-> {}]]
      /\ h' = [h EXCEPT ![p].stage = n]
-     /\ exLock' = IF "D17_lock_on_old_inode" \in Defects THEN exLock ELSE [exLock EXCEPT ![n] = p]
+     \* the staging inode is locked in SHARED mode: enough to keep writers out (they need the exclusive lock to
+     \* open) while read-only handles may still open the committed file next to a living writer
+     /\ shLock' = IF "D17_lock_on_old_inode" \in Defects THEN shLock ELSE [shLock EXCEPT ![n] = @ \cup {p}]
   /\ nextIno' = nextIno + 1
   /\ last' = Obs(p, "stage", "ok")
-  /\ UNCHANGED <<name, shLock, lost, nput>>
+  /\ UNCHANGED <<name, exLock, lost, nput>>
 
 \* commit, second half: rename(temp, path) + reopen by path; the old inode loses its name.
 \* Intended design: the handle's lock moves to the new inode (old lock released);
@@ -122,12 +124,14 @@ CommitRename(p) ==
      /\ lost' = lost \cup disk[n].frames
      /\ IF "D17_lock_on_old_inode" \in Defects
           THEN /\ h' = [h EXCEPT ![p].file = n, ![p].stage = 0, ![p].dirty = FALSE, ![p].seen = disk[n].frames, ![p].pins = 0]
-               /\ exLock' = exLock
+               /\ exLock' = exLock /\ shLock' = shLock
           ELSE /\ h' = [h EXCEPT ![p].file = n, ![p].lock = n, ![p].stage = 0, ![p].dirty = FALSE,
                                   ![p].seen = disk[n].frames, ![p].pins = 0]
-               /\ exLock' = [exLock EXCEPT ![h[p].lock] = None]
+               \* the lock of the old inode (exclusive before the first commit, shared afterwards) is released
+               /\ exLock' = [exLock EXCEPT ![h[p].lock] = IF @ = p THEN None ELSE @]
+               /\ shLock' = [shLock EXCEPT ![h[p].lock] = @ \ {p}]
   /\ last' = Obs(p, "commit", "ok")
-  /\ UNCHANGED <<nextIno, shLock, disk, nput>>
+  /\ UNCHANGED <<nextIno, disk, nput>>
 
 \* The public commit() call as one step: exactly CommitStage(p) followed by CommitRename(p)
 \* (TLC does not implement action composition; the engine's self-test checks that adding this
@@ -142,11 +146,12 @@ CommitWhole(p) ==
      /\ lost' = lost \cup nf
      /\ IF "D17_lock_on_old_inode" \in Defects
           THEN /\ h' = [h EXCEPT ![p].file = n, ![p].dirty = FALSE, ![p].seen = nf, ![p].pins = 0]
-               /\ exLock' = exLock
+               /\ exLock' = exLock /\ shLock' = shLock
           ELSE /\ h' = [h EXCEPT ![p].file = n, ![p].lock = n, ![p].dirty = FALSE, ![p].seen = nf, ![p].pins = 0]
-               /\ exLock' = [exLock EXCEPT ![n] = p, ![h[p].lock] = None]
+               /\ exLock' = [exLock EXCEPT ![h[p].lock] = IF @ = p THEN None ELSE @]
+               /\ shLock' = [i \in Inodes |-> IF i = n THEN shLock[i] \cup {p} ELSE IF i = h[p].lock THEN shLock[i] \ {p} ELSE shLock[i]]
   /\ last' = Obs(p, "commit", "ok")
-  /\ UNCHANGED <<shLock, nput>>
+  /\ UNCHANGED <<nput>>
 
 \* Drop of a dirty handle: commit, then release
 CloseDirty(p) ==
@@ -213,7 +218,7 @@ AtMostOneWriter == Cardinality(Writers) <= 1
 \* C17: a writable handle holds the exclusive lock of the inode the path names (between its calls),
 \* i.e. an independent flock probe on the path must find it busy
 WriterHoldsNameLock ==
-  \A p \in Writers : h[p].stage = 0 => exLock[name] = p
+  \A p \in Writers : h[p].stage = 0 => (exLock[name] = p \/ p \in shLock[name])
 
 \* C17 consequence: no commit is silently lost - everything whose commit returned is in the file
 \* the path names now (committed or still in its log)
